@@ -11,6 +11,9 @@ pub type Id = u32;
 #[derive(Clone, Debug, PartialEq, Eq)]
 pub enum T {
     New(Id, i32),
+    /// `new_uninit`, a Weak to the uninitialised box taken, the value written through
+    /// `get_mut_unchecked` while that Weak exists, `assume_init`
+    NewTwoPhase(Id, i32),
     FromBox(Id, i32),
     FromT(Id, i32),
     Clone(Id, Id),
@@ -44,6 +47,7 @@ impl T {
         let k = |i: usize| -> Result<i32, String> { a.get(i).map(|&v| v as i32).ok_or(format!("{t}: missing argument")) };
         Ok(match n {
             "New" => T::New(u(0)?, k(1)?),
+            "NewTwoPhase" => T::NewTwoPhase(u(0)?, k(1)?),
             "FromBox" => T::FromBox(u(0)?, k(1)?),
             "FromT" => T::FromT(u(0)?, k(1)?),
             "Clone" => T::Clone(u(0)?, u(1)?),
@@ -152,6 +156,14 @@ impl std::hash::Hash for Spy {
 
 /// Observations that need `Ord + Eq + Hash` on the handle type (only some payloads).
 pub trait Extra: Sized {
+    /// method-call syntax through the handle (payloads whose methods are named like the
+    /// handle type's associated functions)
+    fn meth_c(_a: &cactusref::Rc<Self>) -> String {
+        String::new()
+    }
+    fn meth_s(_a: &std::rc::Rc<Self>) -> String {
+        String::new()
+    }
     /// `Display` through the handle with width / fill / precision / sign flags
     fn disp_c(_a: &cactusref::Rc<Self>) -> String {
         String::new()
@@ -237,11 +249,66 @@ impl Extra for Packed {}
 impl Extra for Al4096 {}
 ord_extra!(u16, [u8; 5000]);
 
-pub const NTYPES: u32 = 17;
-pub const TYPE_NAMES: [&str; NTYPES as usize] = ["()", "u8", "f64(NaN for key 0)", "align64", "align32", "[u64;40]", "(u8,u64)", "String", "Box<i32>", "ZST struct", "struct with NaN field", "Spy (hand-written, logged eq/ne/lt/le/gt/ge/cmp/hash)", "u16", "align16 size 16 (u64 inside)", "packed (u8,u32)", "[u8;5000]", "align4096"];
+/// A payload whose own methods are named like the associated functions of the handle type.
+#[derive(Clone, Debug, PartialEq, PartialOrd)]
+pub struct Named(pub i32);
+#[derive(Debug)]
+pub struct Marker(pub u32);
+impl Named {
+    pub fn strong_count(&self) -> Marker {
+        Marker(700 + self.0 as u32)
+    }
+    pub fn weak_count(&self) -> Marker {
+        Marker(800)
+    }
+    pub fn as_ptr(&self) -> Marker {
+        Marker(900)
+    }
+    pub fn downgrade(&self) -> Marker {
+        Marker(1000)
+    }
+    pub fn into_raw(&self) -> Marker {
+        Marker(1100)
+    }
+}
+/// whatever a call returned, rendered without addresses
+pub trait Show {
+    fn show(&self) -> String;
+}
+impl Show for Marker {
+    fn show(&self) -> String {
+        format!("payload-method({})", self.0)
+    }
+}
+impl Show for usize {
+    fn show(&self) -> String {
+        format!("usize({self})")
+    }
+}
+impl<T> Show for *const T {
+    fn show(&self) -> String {
+        "pointer".into()
+    }
+}
+macro_rules! named_calls {
+    ($a:ident) => {
+        format!("{} {} {} {} {}", $a.strong_count().show(), $a.weak_count().show(), $a.as_ptr().show(), $a.downgrade().show(), $a.into_raw().show())
+    };
+}
+impl Extra for Named {
+    fn meth_c(a: &cactusref::Rc<Self>) -> String {
+        named_calls!(a)
+    }
+    fn meth_s(a: &std::rc::Rc<Self>) -> String {
+        named_calls!(a)
+    }
+}
+
+pub const NTYPES: u32 = 18;
+pub const TYPE_NAMES: [&str; NTYPES as usize] = ["()", "u8", "f64(NaN for key 0)", "align64", "align32", "[u64;40]", "(u8,u64)", "String", "Box<i32>", "ZST struct", "struct with NaN field", "Spy (hand-written, logged eq/ne/lt/le/gt/ge/cmp/hash)", "u16", "align16 size 16 (u64 inside)", "packed (u8,u32)", "[u8;5000]", "align4096", "Named (methods named like the handle's associated functions)"];
 
 macro_rules! typed_interp {
-    ($m:ident, $x:ident, $d:ident, $($p:tt)*) => {
+    ($m:ident, $x:ident, $d:ident, $n:ident, $($p:tt)*) => {
         pub mod $m {
             use super::{take_notes, Extra, Id, T};
             use std::borrow::Borrow;
@@ -259,6 +326,21 @@ macro_rules! typed_interp {
                     match *op {
                         T::New(d, k) => {
                             hs.entry(d).or_insert_with(|| R::new(mk(k)));
+                        }
+                        T::NewTwoPhase(d, k) => {
+                            if !hs.contains_key(&d) {
+                                let mut u = R::<V>::new_uninit();
+                                let w = R::downgrade(&u);
+                                log.push(format!("twophase0 {} {} {}", R::strong_count(&u), R::weak_count(&u), w.strong_count()));
+                                unsafe {
+                                    R::get_mut_unchecked(&mut u).as_mut_ptr().write(mk(k));
+                                }
+                                let r = unsafe { u.assume_init() };
+                                log.push(format!("twophase1 {} {} {:?}", R::strong_count(&r), R::weak_count(&r), *r));
+                                drop(w);
+                                log.push(format!("twophase2 {} {}", R::strong_count(&r), R::weak_count(&r)));
+                                hs.insert(d, r);
+                            }
                         }
                         T::FromBox(d, k) => {
                             hs.entry(d).or_insert_with(|| R::from(Box::new(mk(k))));
@@ -392,6 +474,9 @@ macro_rules! typed_interp {
                         T::Counts(h) => {
                             if let Some(r) = hs.get(&h) {
                                 log.push(format!("counts {} {} {:?}", R::strong_count(r), R::weak_count(r), **r));
+                                // method-call syntax through the handle must reach the payload's own
+                                // methods, whatever they are called (the handle type has no methods)
+                                log.push(format!("methods {}", V::$n(r)));
                             }
                         }
                         T::Borrow(h) => {
@@ -431,8 +516,8 @@ macro_rules! typed_interp {
         }
     };
 }
-typed_interp!(cactus, extra_c, disp_c, cactusref);
-typed_interp!(stdrc, extra_s, disp_s, std::rc);
+typed_interp!(cactus, extra_c, disp_c, meth_c, cactusref);
+typed_interp!(stdrc, extra_s, disp_s, meth_s, std::rc);
 
 pub fn generate(rng: &mut Rng) -> (u32, Vec<T>) {
     let ty = rng.below(NTYPES as usize) as u32;
@@ -448,7 +533,8 @@ pub fn generate(rng: &mut Rng) -> (u32, Vec<T>) {
         let h = |rng: &mut Rng, n: u32| rng.below(n.max(1) as usize) as Id;
         let k = rng.below(3) as i32;
         v.push(match rng.below(26) {
-            0 | 1 => T::New(id(&mut nh), k),
+            0 => T::New(id(&mut nh), k),
+            1 => T::NewTwoPhase(id(&mut nh), k),
             2 | 3 => T::FromBox(id(&mut nh), k),
             4 => T::FromT(id(&mut nh), k),
             5 | 6 => T::Clone(h(rng, nh), id(&mut nh)),
@@ -527,6 +613,7 @@ pub fn run_both(ty: u32, prog: &[T], on_step: &mut dyn FnMut(usize)) -> (bool, u
         14 => both(prog, &|k| Packed(k as u8, 7 + k as u32), on_step),
         15 => both(prog, &|k| [k as u8; 5000], on_step),
         16 => both(prog, &|k| Al4096(k as u8), on_step),
+        17 => both(prog, &|k| Named(k), on_step),
         _ => both(prog, &|k| NanField { tag: k as u8, x: if k == 0 { f32::NAN } else { 1.0 } }, on_step),
     };
     let _ = har(|| ());
